@@ -12,6 +12,7 @@ From BV Require Import Proofs.PoolHist.
 From BV Require Import Model.PoolSys Proofs.PoolSysProofs.
 From BV Require Gen.G_pool_shape.
 From BV Require Gen.G_pool_pins.
+From BV Require Model.Pool Model.LaxSem Proofs.PoolTick Model.PoolCrash Proofs.PoolCrashProofs.
 Import ListNotations.
 Open Scope Z_scope.
 
@@ -214,3 +215,21 @@ Proof. vm_compute. reflexivity. Qed.
 Theorem C01_modelled_code_is_the_validated_text : G_pool_pins.modelled_code_of_C01 = true.
 Proof. reflexivity. Qed.
 Print Assumptions C01_modelled_code_is_the_validated_text.
+
+(* ---- the closed system with crashes (Model/PoolCrash.v): every resolved job carries its OWN result,
+   or the loss of its OWN worker; an unresolved job is in exactly one place; from every reachable state
+   an end with every job resolved is reachable *)
+Theorem C01_crash_resolved_own_result_or_own_loss : forall c n,
+    1 <= Pool.c_n c -> Pool.c_maxr c = None -> forall y k x,
+    PoolCrashProofs.creach c n y -> Pool.get_job (PoolCrash.cpar y) k = Some x -> Pool.ready x = true ->
+    PoolCrashProofs.resolved_ok y k x.
+Proof. exact PoolCrashProofs.resolved_own_result_or_lost. Qed.
+Print Assumptions C01_crash_resolved_own_result_or_own_loss.
+
+Theorem C01_crash_no_state_is_doomed : forall c n y,
+    1 <= Pool.c_n c -> Pool.c_maxr c = None -> PoolCrashProofs.creach c n y ->
+    exists sched y', PoolCrash.crun y sched = Some y' /\ PoolCrash.no_early sched /\ PoolCrash.no_kill sched
+                     /\ PoolCrash.all_useful y sched /\ PoolCrash.cwork y' = 0%nat
+                     /\ PoolCrashProofs.call_complete n y'.
+Proof. exact PoolCrashProofs.creach_can_always_complete. Qed.
+Print Assumptions C01_crash_no_state_is_doomed.
